@@ -47,6 +47,10 @@ R12i one run-log item per invocation: PInterpreter.visit creates an instance id 
      state: its item stays started/cancellable/forcible for the whole run, and since the node branch (R12h) serves only the
      latest id, a request for that offered item is refused (before R12h: it was redirected to whatever invocation was current).
      Rule: in visit() the creation is conditional, and the path that skips it is guarded by `interrupt_registered`.
+R12j what will never run is not offered: when a block ends, _abort_block_interrupts drops the handlers of the Watches and Alarms in
+     it. A Watch/Alarm that was still waiting for its condition (offered as cancellable and forcible) is concluded there - a
+     tracking.mark_* call on the dropped node under the not-activated condition - otherwise its item stays started and offered for
+     the rest of the run and an accepted force never proceeds (the handler that would honour it is gone).
 """
 from __future__ import annotations
 
@@ -60,6 +64,44 @@ from ..condnode import CondModel
 EXPLANATION = __doc__
 CM = "openpectus.engine.command_manager:CommandManager"
 TR = "openpectus.lang.exec.tracking:Tracking"
+
+
+def _never_forcible(prog, visitor):
+    """Name of the node class of a visit_<Class> method if no instance of it is ever offered as forcible: the first __init__ along
+    its MRO that assigns self._forcible assigns the constant False, nothing else assigns it, and `forcible` is not overridden."""
+    if len(visitor.node.args.args) < 2 or visitor.node.args.args[1].annotation is None:
+        return None
+    cname = norm(visitor.node.args.args[1].annotation).split(".")[-1]
+    try:
+        cls = prog.cls("openpectus.lang.model.ast:" + cname)
+    except Exception:
+        return None
+    root = "SupportCancelForce"
+    for c in [cls] + cls.all_subclasses():
+        for k in c.mro():
+            if k.name == root:
+                break
+            if "forcible" in k.methods or "force" in k.methods:
+                return None
+    for c in [cls] + cls.all_subclasses():
+        decided = False
+        for k in c.mro():
+            init = k.methods.get("__init__")
+            if init is None:
+                continue
+            vals = [v for t, v, st in assigned_attrs(init.node) if t.attr == "_forcible"]
+            if vals:
+                if not all(isinstance(v, ast.Constant) and v.value is False for v in vals) or k.name == root:
+                    return None
+                decided = True
+                break
+        if not decided:
+            return None
+        for k in c.mro():
+            for mn, mm in k.methods.items():
+                if mn != "__init__" and k.name != root and any(t.attr == "_forcible" for t, v, st in assigned_attrs(mm.node)):
+                    return None
+    return cname
 
 
 def run(ctx) -> None:
@@ -205,6 +247,10 @@ def run(ctx) -> None:
                 continue   # blank/comment lines are not run-log items and are never offered as cancellable/forcible
             if "block_ended" in cond or "children_complete" in cond or "lock" in cond:
                 ctx.ok("R12c", inst + " (ended by End block, not forcible)", trivial=True)
+                continue
+            never = _never_forcible(prog, m)
+            if never:
+                ctx.ok("R12c", inst + f" ({never} is never offered as forcible: _forcible = False, no override of `forcible`)", trivial=True)
                 continue
             if need <= flags:
                 ctx.ok("R12c", inst, {"rule": "R12c", "loop": cond, "flags": sorted(flags)})
@@ -423,6 +469,26 @@ def run(ctx) -> None:
         ctx.fail("R12i", vis, creates[0].ast, inst, "every entry of visit() creates a new instance id: the id created by the registering visit of a Watch/Alarm "
                  "never gets another state, so each Watch/Alarm leaves a second run-log item that is `started`, cancellable and forcible for "
                  "the rest of the run; a cancel/force request for that offered item cannot act on the invocation it names")
+    # ---- R12j
+    ctx.rule("R12j", "a waiting Watch/Alarm whose handler is dropped with its block is concluded")
+    abf = pic.methods.get("_abort_block_interrupts")
+    if abf is None:
+        raise AnchorError("PInterpreter._abort_block_interrupts missing")
+    ctx.analysed(abf)
+    gab = cfg_of(abf)
+    unreg = [n for n in gab.nodes if n.ast is not None and any(call_attr(c) == "_unregister_interrupt" for c in n.calls())]
+    if not unreg:
+        raise AnchorError("_abort_block_interrupts: _unregister_interrupt not found")
+    concl = [n for n in gab.nodes if n.ast is not None and any(call_attr(c) in ("mark_cancelled", "mark_completed", "mark_failed") for c in n.calls())]
+    inst = "_abort_block_interrupts: a dropped Watch/Alarm that has not been activated gets a conclusive state"
+    good = [n for n in concl if any(a.endswith(".activated") and not pol for a, pol in facts_at(gab, n))
+            and any(gab.search([u.id], lambda x, n=n: x.id == n.id, follow_exc=False) is not None or gab.dominates(n, u) for u in unreg)]
+    if good:
+        ctx.ok("R12j", inst)
+    else:
+        ctx.fail("R12j", abf, unreg[0].ast, inst, "the handler is unregistered and nothing concludes the instruction: `Block: B1 / Watch: Run Counter > 5 / "
+                 "Mark: W // Wait: 0.4s / End block`, `Wait: 2s` - after End block the Watch item stays started, cancellable=True, "
+                 "forcible=True; a force at tick 13 is accepted, the item shows `forced` and `Mark: W` is never written")
     for mname in ("cancel_instruction", "force_instruction"):
         f = cmc.methods[mname]
         g = cfg_of(f)
